@@ -66,14 +66,22 @@ func (f *MiniFact) set(v []int64) {
 func (f *MiniFact) Boom() bool     { panic("boom") }
 func (f *MiniFact) Fail() (bool, error) { return false, errors.New("fail") }
 
+// counter i of the model: F.C<i> for i < nCounters, the top-level data-context variable T for i == nCounters
+func cname(i int) string {
+	if i == nCounters {
+		return "T"
+	}
+	return fmt.Sprintf("F.C%d", i)
+}
+
 func (c MCond) grl() string {
 	switch c.Op {
 	case "lt":
-		return fmt.Sprintf("F.C%d < %d", c.I, c.K)
+		return fmt.Sprintf("%s < %d", cname(c.I), c.K)
 	case "ge":
-		return fmt.Sprintf("F.C%d >= %d", c.I, c.K)
+		return fmt.Sprintf("%s >= %d", cname(c.I), c.K)
 	case "eq":
-		return fmt.Sprintf("F.C%d == %d", c.I, c.K)
+		return fmt.Sprintf("%s == %d", cname(c.I), c.K)
 	case "true":
 		return "true"
 	case "false":
@@ -163,9 +171,9 @@ func (c MCond) eval(u []int64) (val bool, ok bool) {
 func (a MAct) grl() string {
 	switch a.Op {
 	case "inc":
-		return fmt.Sprintf("F.C%d = F.C%d + 1;", a.I, a.I)
+		return fmt.Sprintf("%s = %s + 1;", cname(a.I), cname(a.I))
 	case "set":
-		return fmt.Sprintf("F.C%d = %d;", a.I, a.K)
+		return fmt.Sprintf("%s = %d;", cname(a.I), a.K)
 	case "retract":
 		return fmt.Sprintf("Retract(\"%s\");", a.N)
 	case "complete":
@@ -324,7 +332,7 @@ func classifyErr(err error, s MiniScenario) string {
 	return "other:" + msg
 }
 
-func runMiniOn(kb *ast.KnowledgeBase, s MiniScenario, fact *MiniFact) (obs MiniObs) {
+func runMiniOn(kb *ast.KnowledgeBase, s MiniScenario, fact *MiniFact, topT int64) (obs MiniObs) {
 	var log []string
 	calls := 0
 	ctx := cctx{Context: context.Background(), calls: &calls, cancelAt: s.CancelAt, log: &log}
@@ -337,6 +345,7 @@ func runMiniOn(kb *ast.KnowledgeBase, s MiniScenario, fact *MiniFact) (obs MiniO
 		obs.Outcome = "other:" + err.Error()
 		return
 	}
+	dc.Add("T", topT)
 	func() {
 		defer func() {
 			if r := recover(); r != nil {
@@ -347,6 +356,11 @@ func runMiniOn(kb *ast.KnowledgeBase, s MiniScenario, fact *MiniFact) (obs MiniO
 		obs.Outcome = classifyErr(err, s)
 	}()
 	obs.Counters = fact.get()
+	if tn := dc.Get("T"); tn != nil && tn.Value().CanInt() {
+		obs.Counters = append(obs.Counters, tn.Value().Int())
+	} else {
+		obs.Counters = append(obs.Counters, -999)
+	}
 	obs.ErrCalls = calls
 	obs.RawLog = log
 	// listener 0 is the reference; the others must have seen the same sequence
@@ -546,11 +560,11 @@ func genMCond(p *prng, depth int, faulty bool) MCond {
 	case 1:
 		return MCond{Op: "false"}
 	case 2, 3:
-		return MCond{Op: "ge", I: p.intn(nCounters), K: int64(p.intn(5))}
+		return MCond{Op: "ge", I: p.intn(nCounters + 1), K: int64(p.intn(5))}
 	case 4:
-		return MCond{Op: "eq", I: p.intn(nCounters), K: int64(p.intn(4))}
+		return MCond{Op: "eq", I: p.intn(nCounters + 1), K: int64(p.intn(4))}
 	default:
-		return MCond{Op: "lt", I: p.intn(nCounters), K: int64(1 + p.intn(5))}
+		return MCond{Op: "lt", I: p.intn(nCounters + 1), K: int64(1 + p.intn(5))}
 	}
 }
 
@@ -576,9 +590,9 @@ func genMini(p *prng, prop string) MiniScenario {
 		for j := 0; j < na; j++ {
 			switch p.intn(12) {
 			case 0, 1, 2:
-				r.Acts = append(r.Acts, MAct{Op: "inc", I: p.intn(nCounters)})
+				r.Acts = append(r.Acts, MAct{Op: "inc", I: p.intn(nCounters + 1)})
 			case 3:
-				r.Acts = append(r.Acts, MAct{Op: "set", I: p.intn(nCounters), K: int64(p.intn(4))})
+				r.Acts = append(r.Acts, MAct{Op: "set", I: p.intn(nCounters + 1), K: int64(p.intn(4))})
 			case 4, 5:
 				tgt := names[p.intn(n)]
 				if p.chance(1, 8) {
@@ -594,7 +608,7 @@ func genMini(p *prng, prop string) MiniScenario {
 					r.Acts = append(r.Acts, MAct{Op: pick(p, []string{"fail", "boom"})})
 				}
 			default:
-				r.Acts = append(r.Acts, MAct{Op: "inc", I: p.intn(nCounters)})
+				r.Acts = append(r.Acts, MAct{Op: "inc", I: p.intn(nCounters + 1)})
 			}
 		}
 		if (prop == "C10") && p.chance(1, 2) {
@@ -613,7 +627,7 @@ func genMini(p *prng, prop string) MiniScenario {
 		}
 		s.Rules = append(s.Rules, r)
 	}
-	s.Counters = make([]int64, nCounters)
+	s.Counters = make([]int64, nCounters+1)
 	for i := range s.Counters {
 		s.Counters[i] = int64(p.intn(3))
 	}
@@ -750,6 +764,9 @@ func miniOracle(prop string, s MiniScenario, obs MiniObs) string {
 				if eqCounters(trial, obs.Counters) && !eqCounters(u, obs.Counters) {
 					started = true
 				}
+			}
+			if started && cancelled && x.Chk > s.CancelAt {
+				return fmt.Sprintf("the action list of %s was started although an earlier ctx.Err() check (call %d of %d before it) had seen the cancelled context", x.Rule, s.CancelAt, x.Chk)
 			}
 			if started {
 				fired++
@@ -925,7 +942,7 @@ func runScenario(s MiniScenario) (MiniObs, error) {
 	}
 	f := &MiniFact{}
 	f.set(s.Counters)
-	return runMiniOn(kb, s, f), nil
+	return runMiniOn(kb, s, f, s.Counters[nCounters]), nil
 }
 
 func replayMini(prop string) func(path string) (bool, string, error) {
